@@ -72,7 +72,10 @@ def r1_r2_r3(ctx):
     for strand in ("+", "-", "."):
         for use in (True, False):
             tr = _traces(ctx, sq, {"fasta": Opaque("FA", "Fasta"), "use_strand": use}, self_obj=_feat("F", chrom="chr7", start=10, end=20, strand=strand))
-            got = sorted({getattr(t.result[1], "name", repr(t.result[1])) if t.result[0] == "return" else "raise %s" % t.result[1] for t in tr})
+            import re as _re
+            # pyfaidx: -sequence is its reverse complement; reverse and complement commute
+            canon = lambda nm: _re.sub(r"neg\((.*)\)", r"\1.reverse.complement", nm).replace(".complement.reverse", ".reverse.complement")
+            got = sorted({canon(getattr(t.result[1], "name", repr(t.result[1]))) if t.result[0] == "return" else "raise %s" % t.result[1] for t in tr})
             rc = use and strand == "-"
             want = "FA['chr7'][9:20]%s.seq" % (".reverse.complement" if rc else "")
             ctx.ob("R5" if strand == "-" else "R1", got == [want],
@@ -116,7 +119,8 @@ def r1_r2_r3(ctx):
     lk = []
     got, t = line({fp: _gene()}, lookups=lk)
     ch = [x for x in lk if isinstance(x, tuple) and x[0] == "children"]
-    ok = any(x[2] == ("exon",) and x[3] == "start" and not x[4] for x in ch) and any(x[2] == ("CDS",) and x[3] == "start" and not x[4] for x in ch)
+    by_start = lambda o: o == "start" or (isinstance(o, (list, tuple)) and list(o) == ["start"])
+    ok = any(x[2] == ("exon",) and by_start(x[3]) and not x[4] for x in ch) and any(x[2] == ("CDS",) and by_start(x[3]) and not x[4] for x in ch)
     ctx.ob("R1", ok, "blocks and thick features are the children of their featuretype in ascending start order", func=b, sig="children queries %s" % [x[2:] for x in ch])
     g7 = _gene(score="7")
     got, t = line({fp: g7}, G=g7)
